@@ -93,6 +93,9 @@ def gen_image(rng, tier):
             if rng.random() < 0.3:
                 slots[-1] = 99
             meta["volume_holes"] = True
+        # room for every file (whole sectors), every directory and the shuffled / interleaved allocation orders
+        need = 3 + sum(1 + sum(max(1, -(-len(f.body()) // SECTOR)) for f in v.files) for v in vols)
+        size = max(size, 2 * need + 12)
         parts.append(AW.Partition(vols, size_sectors=size, slots=slots))
     # allocation order
     mode = rng.choice(["contig", "reversed", "shuffled", "interleaved", "shuffled", "midswap", "midswap"])
